@@ -187,7 +187,8 @@ CATALOG = [
   ("llc", {"l2": "llc", "l3": "raw", "pay": 20}),
   ("snap-ip", {"l2": "snap", "l3": "ip", "l4": "udp", "ip_src": 0x0a00000a, "ip_dst": 0x0a00000b, "sport": 67, "dport": 68}),
   ("snap-other", {"l2": "snap", "l3": "raw", "etype": 0x809b, "pay": 12}),
-  ("snap-oui", {"l2": "snap", "l3": "raw", "etype": 0x2000, "oui": 0x00000c, "pay": 12}),
+  ("icmp-vlan-opts", {"l3": "ip", "l4": "icmp", "vlan": [6, 2000], "nopts": 1, "ip_src": 0xc6336401, "ip_dst": 0xcb007101,
+                      "sport": 3, "dport": 1, "pay": 8, "tos": 0xe0}),
   ("qinq", {"l3": "ip", "l4": "udp", "vlan": [2, 10], "vlan2": [3, 20]}),
 ]
 CATALOG_BY_NAME = dict(CATALOG)
